@@ -137,18 +137,36 @@ func (x *Exec) heap(st *State, name, srt string) string {
 
 func (x *Exec) setHeap(st *State, name, srt, term string) {
 	x.heap(st, name, srt) // make sure the entry version exists
+	old := st.heaps[name]
 	v := x.ctx.fresh(name + "@")
 	st.emit(fmt.Sprintf("(declare-const %s %s)", v, srt))
 	st.emit(fmt.Sprintf("(assert (= %s %s))", v, term))
 	st.heaps[name] = v
+	x.atFrameLemma(st, name, old, v)
+}
+
+// atFrameLemma: element reads through at_T carry over from the previous version of an element
+// heap wherever the backing array is unchanged (consequence of the at_T axiom; it lets
+// E-matching move at_T terms across heap versions).
+func (x *Exec) atFrameLemma(st *State, name, old, v string) {
+	if !strings.HasPrefix(name, "E$") || old == "" || old == v {
+		return
+	}
+	et, ok := x.heapElem[name]
+	if !ok {
+		return
+	}
+	at := x.atFn(et)
+	st.emit(fmt.Sprintf("(assert (forall ((s Slice) (i Int)) (! (=> (= (select %s (s_arr s)) (select %s (s_arr s))) (= (%s %s s i) (%s %s s i))) :pattern ((%s %s s i)))))", v, old, at, v, at, old, at, v))
 }
 
 func (x *Exec) havocHeap(st *State, name, srt string) string {
-	x.heap(st, name, srt)
+	old := x.heap(st, name, srt)
 	v := x.ctx.fresh(name + "@")
 	st.emit(fmt.Sprintf("(declare-const %s %s)", v, srt))
 	st.heaps[name] = v
 	x.typingAxiom(st, name, v)
+	x.atFrameLemma(st, name, old, v)
 	return v
 }
 
@@ -508,6 +526,8 @@ func (x *Exec) storeTerm(st *State, l *Loc, t string) {
 		h := x.heap(st, hn, hs)
 		arr, abs := "(s_arr "+l.Arr+")", "(+ (s_off "+l.Arr+") "+l.Idx+")"
 		x.setHeap(st, hn, hs, sto(h, arr, sto(sel(h, arr), abs, t)))
+		// ground fact in at_T form (creates the term quantifier triggers look for)
+		st.assume(eq(app(x.atFn(l.Elem), st.heaps[hn], l.Arr, l.Idx), t))
 	case LArrIdx:
 		x.storeTerm(st, l.Parent, sto(x.loadTerm(st, l.Parent), l.Idx, t))
 	case LGlobal:
@@ -555,6 +575,16 @@ func (x *Exec) oblige(st *State, kind, detail string, goal string, tags []string
 	if x.mode == "post-only" && strings.HasPrefix(kind, "safe") {
 		st.assume(goal)
 		return
+	}
+	if strings.HasPrefix(goal, "(and ") && kind != "cover" {
+		// split conjunctions: smaller queries, and the failing conjunct is named
+		parts := flattenAnd(goal)
+		if len(parts) > 1 && len(parts) <= 48 {
+			for i, p := range parts {
+				x.oblige(st, kind, fmt.Sprintf("%s.%d", detail, i), p, tags, desc+fmt.Sprintf(" [conjunct %d]", i))
+			}
+			return
+		}
 	}
 	name := x.curKey + "#" + kind
 	if detail != "" {
@@ -1036,4 +1066,38 @@ func (x *Exec) convertInt(st *State, term string, from, to types.Type) string {
 		return wrapSigned(term, tb)
 	}
 	return wrapUnsigned(term, tb)
+}
+
+
+// flattenAnd splits a term "(and a b (and c d))" into its conjuncts.
+func flattenAnd(t string) []string {
+	if !strings.HasPrefix(t, "(and ") || !strings.HasSuffix(t, ")") {
+		return []string{t}
+	}
+	inner := t[5 : len(t)-1]
+	var parts []string
+	depth, start := 0, 0
+	for i := 0; i < len(inner); i++ {
+		switch inner[i] {
+		case '(':
+			depth++
+		case ')':
+			depth--
+		case ' ':
+			if depth == 0 {
+				if start < i {
+					parts = append(parts, inner[start:i])
+				}
+				start = i + 1
+			}
+		}
+	}
+	if start < len(inner) {
+		parts = append(parts, inner[start:])
+	}
+	var out []string
+	for _, p := range parts {
+		out = append(out, flattenAnd(p)...)
+	}
+	return out
 }
